@@ -102,12 +102,17 @@ Spec == Init /\ [][Next]_vars
 \* ------------------------------------------------------------------------------------------ requests
 InstWith(r, w) == [i \in DOMAIN r |-> IF r[i].k = "S" THEN r[i].s ELSE w]
 Front1(s) == SubSeq(s, 1, Len(s) - 1)
+\* "%" stands for an escaped slash (`%2F`) inside a segment: to the router the two halves and the escape are ONE segment, which no static
+\* segment equals (a static segment cannot contain a slash) -- only a param can take it
+JoinAt(p, i) == SubSeq(p, 1, i - 1) \o <<p[i] \o <<"%">> \o p[i + 1]>> \o SubSeq(p, i + 2, Len(p))
 Perturb(p) == {p, Append(p, <<"a">>), Append(p, <<>>)}
+              \cup {JoinAt(p, i) : i \in 1..(Len(p) - 1)}
               \cup (IF p = <<>> THEN {} ELSE {Front1(p)})
               \cup {[p EXCEPT ![i] = @ \o <<"a">>] : i \in DOMAIN p}
               \cup {[p EXCEPT ![i] = Front1(@)] : i \in {j \in DOMAIN p : p[j] # <<>>}}
 PathsFor(ap) == LET rts == {x.route : x \in AllRoutes(ap)} \cup {mt.prefix : mt \in AllMounts(ap)} IN
                 UNION {Perturb(InstWith(r, w)) : r \in rts, w \in {<<"a">>, <<"b", "b">>}} \cup {<<>>, <<<<"b">>, <<"a">>>>}
+                \cup {InstWith(r, <<"b", "%", "b">>) : r \in {x \in rts : \E i \in DOMAIN x : x[i].k = "P"}}
 \* (C04 also sends OPTIONS: the default handler of that method lives in a tree of its own, and the fangs of the covering applications wrap it
 \*  like any other; C01 does not -- what an OPTIONS request is answered with is CORS's business, C14)
 ReqMethods == IF METHODS THEN (IF MODE = "c04" THEN <<"GET", "POST", "HEAD", "PUT", "OPTIONS">> ELSE <<"GET", "POST", "HEAD", "PUT">>)
